@@ -12,7 +12,10 @@ import (
 
 // ---------------- C04: cases of specs/bls/BLSAggregation.tla
 
-func init() { Runners["aggregation"] = runAggregation }
+func init() {
+	Runners["aggregation"] = runAggregation
+	Runners["aggregation-large"] = runAggregationLarge
+}
 
 type aggrCase struct {
 	Keys            []string       `json:"keys"`
@@ -233,4 +236,90 @@ func encOrNil(pk crypto.PublicKey) []byte {
 		return nil
 	}
 	return pk.Encode()
+}
+
+// runAggregationLarge: the homomorphism laws on LONG lists (127, 128, 129, 255, 256, 257, ... entries: internal batch sizes),
+// with the one malformed signature of a list at every region of it
+func runAggregationLarge(raw json.RawMessage, seed int64) (res Result) {
+	res.Violations = []Violation{}
+	defer func() {
+		if r := recover(); r != nil {
+			res.Violations = append(res.Violations, Violation{"C09", "NoPanic", fmt.Sprintf("large aggregation: panic: %v", r)})
+		}
+	}()
+	w := NewWorld(seed)
+	add := func(pred, d string) {
+		if len(res.Violations) < 5 {
+			res.Violations = append(res.Violations, Violation{"C04", pred, fmt.Sprintf("%s [seed %d]", d, seed)})
+		}
+	}
+	m := w.Msg("m1")
+	h := w.Hasher("kmac", "m1")
+	H := w.HashPoint("kmac", "m1")
+	sizes := []int{127, 128, 129, 255, 256, 257, 130 + w.Rng.Intn(200), 511, 513}
+	const pool = 24
+	var sks []crypto.PrivateKey
+	var scal []*big.Int
+	var sigs []crypto.Signature
+	for i := 0; i < pool; i++ {
+		s := w.Scalar(fmt.Sprintf("L%d", i))
+		sk := w.SK(s)
+		sg, err := sk.Sign(m.Data, h)
+		if err != nil {
+			panic(err)
+		}
+		sks, scal, sigs = append(sks, sk), append(scal, s), append(sigs, sg)
+	}
+	for _, n := range sizes {
+		sum := new(big.Int)
+		lsk := make([]crypto.PrivateKey, n)
+		lpk := make([]crypto.PublicKey, n)
+		lsg := make([]crypto.Signature, n)
+		for i := 0; i < n; i++ {
+			k := (i*7 + int(seed)) % pool
+			if i >= 128 {
+				k = (i*5 + 3) % pool // entries beyond the first 128 differ from the entries at the same offset of the first 128
+			}
+			sum.Add(sum, scal[k])
+			lsk[i], lpk[i], lsg[i] = sks[k], sks[k].PublicKey(), sigs[k]
+		}
+		sum.Mod(sum, ref.R)
+		res.Evals += 3
+		wantSig := H.Mul(sum).Compress()
+		if got, err := crypto.AggregateBLSSignatures(lsg); err != nil || !bytes.Equal(got, wantSig) {
+			add("SignatureHomomorphism", fmt.Sprintf("AggregateBLSSignatures of %d signatures: %x (err %v), the reference sum is %x", n, []byte(got), err, wantSig))
+		}
+		if got, err := crypto.AggregateBLSPublicKeys(lpk); err != nil || !bytes.Equal(got.Encode(), w.G2Bytes(sum)) {
+			add("PublicKeyHomomorphism", fmt.Sprintf("AggregateBLSPublicKeys of %d keys differs from the reference sum (err %v)", n, err))
+		}
+		if got, err := crypto.AggregateBLSPrivateKeys(lsk); err != nil || !bytes.Equal(got.Encode(), scalarBytes(sum)) {
+			add("PrivateKeyHomomorphism", fmt.Sprintf("AggregateBLSPrivateKeys of %d keys differs from the reference sum (err %v)", n, err))
+		}
+		// removal of a long list from the aggregate leaves the rest
+		if n > 130 {
+			agg, _ := crypto.AggregateBLSPublicKeys(lpk)
+			rest := new(big.Int)
+			for i := 0; i < 3; i++ {
+				rest.Add(rest, scal[(i*7+int(seed))%pool])
+			}
+			rest.Mod(rest, ref.R)
+			if got, err := crypto.RemoveBLSPublicKeys(agg, lpk[3:]); err != nil || !bytes.Equal(got.Encode(), w.G2Bytes(rest)) {
+				add("RemovalInverse", fmt.Sprintf("RemoveBLSPublicKeys of %d keys from an aggregate of %d differs from the reference (err %v)", n-3, n, err))
+			}
+			res.Evals++
+		}
+		// one malformed signature anywhere in the list is reported
+		for _, pos := range []int{0, 1, 126, 127, 128, 129, n / 2, n - 2, n - 1} {
+			if pos >= n {
+				continue
+			}
+			bad := append([]crypto.Signature(nil), lsg...)
+			bad[pos] = w.BadEncoding("xgep", lsg[pos])
+			res.Evals++
+			if _, err := crypto.AggregateBLSSignatures(bad); err == nil {
+				add("MalformedReported", fmt.Sprintf("AggregateBLSSignatures of %d signatures accepts a malformed signature at position %d", n, pos))
+			}
+		}
+	}
+	return
 }
